@@ -36,7 +36,11 @@ MkCfg(c) == [maxNames |-> c.maxNames, maxMatch |-> c.maxMatch, maxReplies |-> c.
              policy |-> c.policy, epoch |-> 2, maxMsgFds |-> c.maxMsgFds, maxMsgSize |-> c.maxMsgSize,
              \* activation: service files, limit on waiting requests
              act |-> IF "act" \in DOMAIN c THEN c.act ELSE <<>>,
-             maxPendingAct |-> IF "maxPendingAct" \in DOMAIN c THEN c.maxPendingAct ELSE 512]
+             maxPendingAct |-> IF "maxPendingAct" \in DOMAIN c THEN c.maxPendingAct ELSE 512,
+             \* what the recorder knows about the processes: the bus's pid and machine-unique id, the clients' pid
+             busPid |-> IF "busPid" \in DOMAIN c THEN c.busPid ELSE 0,
+             clientPid |-> IF "clientPid" \in DOMAIN c THEN c.clientPid ELSE 0,
+             guid |-> IF "guid" \in DOMAIN c THEN c.guid ELSE <<>>]
 
 ZeroPos == [s \in Slot |-> 0]
 \* the known-defect deviation PolicyPruning is a property of the whole run of one daemon: chosen at Reset
